@@ -4,7 +4,8 @@ Input (stdin, JSON): {"problems": {pid: problem}, "cases": [run, ...], "spy": bo
   problem = {"cols": {name: [float.hex]}, "choice": [int], "alts": {alt: [[param, column-or-null], ...]}}
             (the utility of an alternative is the sum of param * column; a null column is the constant 1)
   run     = {"pid", "params": [{"name", "init": hex, "lb": hex|null, "ub": hex|null, "fixed": bool}],
-             "algorithm", "share": bool, "iter_start": {name: hex}|null, "settings": {parameter: value}|null}
+             "algorithm", "share": bool, "iter_start": {name: hex}|null, "settings": {parameter: value}|null,
+             "quick": bool (quick_estimate() instead of estimate())}
 Prints one line '@@<json list>' with one result per run (an exception is reported as data).
 Runs in the scratch cwd given by the harness (estimation may write __*.iter / biogeme.toml there)."""
 import json
@@ -217,13 +218,14 @@ def main():
                 with open(f'__{name}.iter', 'w', encoding='utf-8') as f:
                     for k, v in it.items():
                         print(f'{k} = {float.fromhex(v)!r}', file=f)
-            r = b.estimate()
+            r = b.quick_estimate() if run.get('quick') else b.estimate()
             d = r.data
             res.update({
                 'ok': True,
                 'betaNames': list(d.betaNames), 'betaValues': hxl(d.betaValues),
-                'logLike': hx(d.logLike), 'initLogLike': hx(d.initLogLike),
-                'g': hxl(d.g), 'H': hxm(d.H), 'bhhh': hxm(d.bhhh),
+                'logLike': hx(d.logLike), 'initLogLike': None if d.initLogLike is None else hx(d.initLogLike),
+                'g': None if d.g is None else hxl(d.g), 'H': None if d.H is None else hxm(d.H),
+                'bhhh': None if d.bhhh is None else hxm(d.bhhh),
                 'convergence': bool(d.convergence),
                 'cause': str((d.optimizationMessages or {}).get('Cause of termination', ''))[:160],
                 'res_bounds': [[None if x.lb is None else hx(x.lb), None if x.ub is None else hx(x.ub)] for x in d.betas],
